@@ -111,6 +111,29 @@ def r61(chk, m):
     need(hits == 2, 'positive fixture for the ownership scanner did not match')
 
 
+def guard_chain(root, node):
+    """Tests of the enclosing if statements, outermost first ('not' prefix for else arms)."""
+    chain = []
+
+    def visit(stmts, acc):
+        for st in stmts:
+            if st is node:
+                chain.extend(acc)
+                return True
+            if isinstance(st, ast.If):
+                if visit(st.body, acc + [text(st.test)]) or visit(st.orelse, acc + ['not ' + text(st.test)]):
+                    return True
+            elif isinstance(st, (ast.For, ast.While, ast.With)):
+                if visit(st.body, acc) or visit(getattr(st, 'orelse', []), acc):
+                    return True
+            elif isinstance(st, ast.Try):
+                if visit(st.body, acc) or any(visit(h.body, acc) for h in st.handlers) or visit(st.orelse, acc) or visit(st.finalbody, acc):
+                    return True
+        return False
+    visit(root.body, [])
+    return chain
+
+
 def edit_cases(m):
     """(method, label, builder) - builder returns (env, parent key, expected child labels, expected outcome kind, extra check)."""
     from . import domheap as D
